@@ -21,6 +21,8 @@ def bufOp? (t : String) : Option (Op × Bool) :=
   | ['U'] => some (.untilExhausted, false)
   | ['E'] => some (.look, false)
   | 'F' :: ds => (String.ofList ds).toNat?.map fun k => (Op.frames k, false)
+  -- the batch iterator leaked (`mem::forget`) after `k` steps: the frames it handed out are consumed all the same
+  | 'L' :: ds => (String.ofList ds).toNat?.map fun k => (Op.frames k, false)
   | 'T' :: ds => (String.ofList ds).toNat?.map fun k => (Op.frames (k + 1), true)
   | _ => none
 
